@@ -89,4 +89,11 @@ def fibHashMinimal (m : Nat) (real live : List Name) (virt : List (Name × Nat))
 
 def ribMinimal (nodes live : List Name) : Bool := sameSet nodes (closure live)
 
+/-- the FIB holds nothing beyond what the RIB's live routes require: every next-hop face of a FIB
+    prefix is the face of a route registered at that prefix or at one of its prefixes (own routes
+    and inherited ones are the only sources of next hops; the exact flattening is C06's subject) -/
+def fibJustified (fibnh routes : List (Name × List Nat)) : Bool :=
+  fibnh.all fun p => p.2.all fun f =>
+    routes.any fun q => decide (p.1.take q.1.length = q.1) && q.2.any (· == f)
+
 end Ndn.C08
